@@ -27,6 +27,9 @@ HANDLERS = dict(pkg="./server", test="TestVerifHandlersNil", name="handlers", di
 FINDMISSING = dict(pkg="./cache/disk", test="TestVerifFindMissing", name="findmissing", diff=True)
 FMQUEUE = dict(pkg="./cache/disk", test="TestVerifFindMissingStalledBackend", name="fmqueue", diff=False)
 FAILFASTPARK = dict(pkg="./cache/disk", test="TestVerifFailFastParkedWorker", name="failfastpark", diff=False)
+INTERLEAVED = dict(pkg="./cache/disk", test="TestVerifInterleavedReaders", name="interleaved", diff=False)
+LOOKUPRACE = dict(pkg="./cache/disk", test="TestVerifConcurrentLookups", name="lookuprace", diff=False, race="always")
+FFRACE = dict(pkg="./cache/disk", test="TestVerifFailFastManyMisses", name="ffrace", diff=False, race="always")
 FAILFAST = dict(pkg="./cache/disk", test="TestVerifFailFastRace", name="failfast", diff=False)
 
 CONFIG = dict(pkg="./config", test="TestVerifConfig", name="config", diff=True)
@@ -90,10 +93,10 @@ PROPS = {
         level_text="Theorems on M1's Reserve: refusal iff current + backlog + size exceeds the hard limit, refusal leaves the state unchanged, retry succeeds after the backlog drained, no refusal when the option is off. Server-level oracle: with the cache filled to the limit every write path (HTTP, BatchUpdateBlobs, ByteStream.Write, UpdateActionResult with inlined blobs, FetchBlob; both storage modes) answers 507 / RESOURCE_EXHAUSTED, stores and evicts nothing, reads keep working. Also on M4/M5: a fetch of unknown size reserves the announced size first and is refused like any other (unknown_size_fetch_refused); under every interleaving the backlog counter equals the bytes of evicted-but-not-unlinked entries, each with its file (conc_backlog_exact, conc_admission_exact). Harness: remover held before each unlink (admission vs bytes measured on disk), every server read path through a back end at the limit, SpliceBlob, FetchBlob with mirrors.",
         level_note=NOTE + "the uint64 sum is modelled exactly.", technique=TECH),
     "C02": dict(
-        lean="BR.Props.C02", runs=[BLOB, BLOBREAL, DISK, READTHROUGH, SLOWPATH, SRVREAD, SRVPOOL, SRVBATCH], trusted_base=COMMON_TB + [
+        lean="BR.Props.C02", runs=[BLOB, BLOBREAL, DISK, READTHROUGH, SLOWPATH, SRVREAD, SRVPOOL, SRVBATCH, INTERLEAVED], trusted_base=COMMON_TB + [
             "zstd codecs (klauspost, libzstd) enter the theorems as a parameter satisfying Codec.Lawful; SHA-256 as an opaque function"],
         assumptions=["offset >= 0 (enforced by disk.get before the readers are called)"],
-        level_text="Theorems on M2 (casblob): for every conformant file (any chunk size, any frames decoding to the chunks) and every offset below the size, both readers return exactly data[offset:] (raw: the bytes; zstd: a stream decoding to them); the writer's output is conformant; readers are total. ByteStream.Read serves every in-range offset/limit (M10 sendLoop). Harness: every server read path x storage modes x zstd implementations, read-through at every offset, the slow path across storage modes, damaged entries, overlapping reads after a failed one.",
+        level_text="Theorems on M2 (casblob): for every conformant file (any chunk size, any frames decoding to the chunks) and every offset below the size, both readers return exactly data[offset:] (raw: the bytes; zstd: a stream decoding to them); the writer's output is conformant; readers are total. ByteStream.Read serves every in-range offset/limit (M10 sendLoop). Harness: every server read path x storage modes x zstd implementations, read-through at every offset, the slow path across storage modes, damaged entries, overlapping reads after a failed one, 2..4 readers (plain/zstd, offsets on and off chunk boundaries) opened before any of them is read with uploads in between.",
         level_note=NOTE + "codec laws are hypotheses (satisfied by a proved toy instance); the real codecs are exercised by the direct oracle only.", technique=TECH),
     "C20": dict(
         lean="BR.Props.C20", runs=[BLOB, BLOBREAL, GRPCPROXY, S3PROXY, HTTPPROXY, AZBLOB], trusted_base=COMMON_TB, assumptions=[],
@@ -123,7 +126,7 @@ PROPS = {
         level_text="Decision model of the HTTP wrappers / certificate checks and gRPC interceptors; theorems for every configuration, endpoint, credential state and every gRPC method name (universally quantified); the real startHttpServer/startGrpcServer enumerated exhaustively over the whole finite domain against the model.",
         level_note="Lean 4 kernel; readOnlyMethods / health name / registered services regenerated from the source (Bridge.Auth); the correspondence is exhaustive, not sampled.", technique=TECH),
     "C06": dict(
-        lean="BR.Props.C06", runs=[SRVACDEPS, FINDMISSING, FAILFAST, FAILFASTPARK], trusted_base=["protobuf decoding of stored ActionResult / Tree blobs is a parameter (treeOf)"], assumptions=[],
+        lean="BR.Props.C06", runs=[SRVACDEPS, FINDMISSING, FAILFAST, FAILFASTPARK, FFRACE], trusted_base=["protobuf decoding of stored ActionResult / Tree blobs is a parameter (treeOf)"], assumptions=[],
         level_text="Theorems on M8: a hit implies every referenced blob (tree blobs, tree root/child files, non-inlined output files, stdout, stderr) is present; absence yields a miss, never an error or partial result; all present yields a hit. Server-level oracle over every subset of absent blobs; the decision compared with the model. Fail-fast walk with the worker that reports the miss parked inside cancel().",
         level_note=NOTE + "the fail-fast presence check is C10's model; recency refresh of dependencies is checked at the disk level.", technique=TECH),
     "C11": dict(
@@ -160,9 +163,9 @@ PROPS = {
         level_text="Theorems on M2/M6/M1: every file image a compressed upload can leave at a kill, except the final one of a successful write, is refused by readHeader and so by both readers (absent or complete, for all sizes, chunk sizes and streams); the final image is served identically at every offset; restart on any set of files re-establishes the accounting invariant and keeps every file tracked; a raw file (AC, RAW, uncompressed CAS) is adopted with its current length (F16). The real Put is interrupted at generated stream offsets, at the gate between file completion and index insertion and after the acknowledgement; every image is restarted in both storage modes and read through every path.",
         level_note=NOTE + "partial: power-loss durability is outside the model; torn raw files are the recorded finding F16.", technique=TECH),
     "C07": dict(
-        lean="BR.Props.C07", runs=[SCHED, F14, SLOWPATH, SRVPOOL, FAILFASTPARK], trusted_base=COMMON_TB + ["each index-lock region is taken as atomic and memory as touched only inside lock regions; an open file keeps its content after unlink; tempfile.Create never returns a name in use (O_EXCL): assumptions of model M5, not conclusions"], assumptions=["schedules are interleavings at the verif yield points; finer interleavings inside a lock region are excluded by the mutex"],
-        level_text="Theorems on M5 for every schedule of any number of uploads, reads, remover steps and file corruptions: the C03 index invariant holds after every step and exactly the uploads in flight hold reservations (so nothing stays reserved at quiescence); every read that returns data returns the complete bytes of one completed upload to the same key; the files on disk are exactly the files of the tracked entries plus the completed files of uploads that have not committed, with unique names (directory = index at quiescence). The real Put/Get/remover are driven along generated schedules through the yield points (a released segment must reach its next gate or finish) and compared with the model on read results, reservations, entry count and recency order; quiescence oracles for accounting and directory; thorough tier under the race detector. Further theorems: an indexed value is dropped only by Reserve/commit (pressure, overwrite) or by a reader that failed on that very file (acked_entry_kept, stale_reader_cannot_drop = finding F23). Server-level: overlapping reads after failed/limited/cancelled reads; slow path across storage modes.",
-        level_note=NOTE + "partial: atomicity of lock regions and absence of data races are assumed by the model (race detector in the thorough tier).", technique=TECH),
+        lean="BR.Props.C07", runs=[SCHED, F14, SLOWPATH, SRVPOOL, FAILFASTPARK, FFRACE, LOOKUPRACE, INTERLEAVED], trusted_base=COMMON_TB + ["each index-lock region is taken as atomic and memory as touched only inside lock regions; an open file keeps its content after unlink; tempfile.Create never returns a name in use (O_EXCL): assumptions of model M5, not conclusions"], assumptions=["schedules are interleavings at the verif yield points; finer interleavings inside a lock region are excluded by the mutex"],
+        level_text="Theorems on M5 for every schedule of any number of uploads, reads, remover steps and file corruptions: the C03 index invariant holds after every step and exactly the uploads in flight hold reservations (so nothing stays reserved at quiescence); every read that returns data returns the complete bytes of one completed upload to the same key; the files on disk are exactly the files of the tracked entries plus the completed files of uploads that have not committed, with unique names (directory = index at quiescence). The real Put/Get/remover are driven along generated schedules through the yield points (a released segment must reach its next gate or finish) and compared with the model on read results, reservations, entry count and recency order; quiescence oracles for accounting and directory; thorough tier under the race detector. Further theorems: an indexed value is dropped only by Reserve/commit (pressure, overwrite) or by a reader that failed on that very file (acked_entry_kept, stale_reader_cannot_drop = finding F23). Server-level: overlapping reads after failed/limited/cancelled reads; slow path across storage modes. Two runs are built with the race detector in both tiers (fail-fast walk with several digests missing at once: finding F41; eight goroutines of overlapping existence checks, dependency walks, reads and overwrites, followed by a walk of the recency list); readers opened before any is read keep their own bytes (interleaved).",
+        level_note=NOTE + "partial: atomicity of lock regions and absence of data races are assumed by the model (race detector on the scheduled run in the thorough tier, on the ffrace and lookuprace runs in both tiers).", technique=TECH),
 }
 
 _root = os.path.dirname(os.path.dirname(os.path.abspath(__file__)))
